@@ -296,6 +296,22 @@ def _(rng, t, extra):
 	return t["a"].cast(float)
 
 
+@deriv("isna", "vector")
+def _(rng, v, extra):
+	return v.isna()
+
+
+@deriv("reductions-then-copy", "vector")
+def _(rng, v, extra):
+	v.sum(), v.max(), v.min(), v.mean(), v.any(), v.all(), len(v), v.unique(), v.fingerprint(), repr(v), v.schema()
+	return v.copy()
+
+
+@deriv("comparisons-then-mask", "vector")
+def _(rng, v, extra):
+	return v[(v == v) | (v != v)]
+
+
 @deriv("dropna", "vector")
 def _(rng, v, extra):
 	return v.dropna()
@@ -465,6 +481,11 @@ def run_pair(chk, spec):
 	extra = {"w": Vector(V.column(rng, "int", n, "none", small=True), name="w"), "t": base_table(rng, n),
 		"t2": Table({"k": V.column(rng, "int", n, "none", small=True), "z": V.column(rng, "str", n, "none", small=True)})}
 	src = Vector(V.column(rng, "int", n, rng.choice(["none", "none", "low"]), small=True), name="src") if srckind == "vector" else base_table(rng, n)
+	if spec.get("stale") and srckind == "vector" and len(src):
+		# the source's dtype says nullable although no None is left in it (a None was stored and overwritten)
+		x0 = src._underlying[0]
+		if x0 is not None and call(src.__setitem__, 0, None).ok:
+			call(src.__setitem__, 0, x0)
 	pre = {"source": M.snap_any(src), "w": M.snap_any(extra["w"]), "t": M.snap_any(extra["t"]), "t2": M.snap_any(extra["t2"])}
 	d = call(fn, rng, src, extra)
 	# the derivation itself is an operation that returns a new object: it must not have changed anything it read
@@ -564,7 +585,7 @@ def run(chk):
 				if not chk.mine(idx):
 					continue
 				for rep in range(1 if chk.quick() else 3):
-					chk.case("pair", {"deriv": dname, "write": w, "side": side, "seed": rng.randrange(10**9), "n": rng.choice([1, 2, 3, 4])}, "pair")
+					chk.case("pair", {"deriv": dname, "write": w, "side": side, "seed": rng.randrange(10**9), "n": rng.choice([1, 2, 3, 4]), "stale": rng.random() < 0.4}, "pair")
 	for form in ("row", "row-2d", "scalar-broadcast", "region-list", "region-table", "mask-rows", "row-names"):
 		for c in (2, 3):
 			for pos in range(c):
